@@ -521,6 +521,13 @@ static int writer_dump_object_index(struct reftable_writer *w)
 	if (w->obj_index_tree) {
 		infix_walk(w->obj_index_tree, &update_common, &common);
 	}
+	if (common.max + 1 >= (1 << 5)) {
+		/* The footer has 5 bits for the length of the abbreviated
+		   object IDs. SHA-256 IDs that agree in their first 31 bytes
+		   cannot be told apart by an abbreviation that fits: leave out
+		   the object index, refs_for then scans the refs. */
+		return 0;
+	}
 	w->stats.object_id_len = common.max + 1;
 
 	writer_reinit_block_writer(w, BLOCK_TYPE_OBJ);
